@@ -64,16 +64,19 @@ func fnv32a(s string) uint32 {
 func (c *counter) IncCheckReset(t time.Time, tick time.Duration) uint64 {
 	tn := t.UnixNano()
 	resetAfter := c.resetAt.Load()
+	verifHook("smp.load", c, tn, resetAfter)
 	if resetAfter > tn {
 		return c.counter.Add(1)
 	}
 
 	c.counter.Store(1)
+	verifHook("smp.store", c, tn, 0)
 
 	newResetAfter := tn + tick.Nanoseconds()
 	if !c.resetAt.CompareAndSwap(resetAfter, newResetAfter) {
 		// We raced with another goroutine trying to reset, and it also reset
 		// the counter to 1, so we need to reincrement the counter.
+		verifHook("smp.casfail", c, tn, 0)
 		return c.counter.Add(1)
 	}
 
